@@ -182,7 +182,41 @@ func (E *Engine) contractFor(fn *ssa.Function) *FuncContract {
 	if fc, ok := E.contracts[shortName(fullName(fn))]; ok {
 		return fc
 	}
-	return nil
+	// wildcard contracts (trusted families such as the logging functions):
+	// the longest matching pattern wins
+	var best *FuncContract
+	bestLen := -1
+	full := fullName(fn)
+	for k, fc := range E.contracts {
+		if !strings.Contains(k, "*") || !fc.Trusted {
+			continue
+		}
+		if globMatch(k, full) && len(k) > bestLen {
+			best, bestLen = fc, len(k)
+		}
+	}
+	return best
+}
+
+// globMatch: '*' matches any run of characters.
+func globMatch(pat, s string) bool {
+	parts := strings.Split(pat, "*")
+	if !strings.HasPrefix(s, parts[0]) {
+		return false
+	}
+	s = s[len(parts[0]):]
+	for i := 1; i < len(parts); i++ {
+		p := parts[i]
+		if i == len(parts)-1 {
+			return strings.HasSuffix(s, p)
+		}
+		j := strings.Index(s, p)
+		if j < 0 {
+			return false
+		}
+		s = s[j+len(p):]
+	}
+	return true
 }
 
 func (E *Engine) contractForMethod(recvT types.Type, m *types.Func) *FuncContract {
@@ -668,6 +702,9 @@ func (E *Engine) VerifyFunction(fn *ssa.Function, fc *FuncContract) {
 	}
 	for i, fv := range fn.FreeVars {
 		v := x.freshVal("fv."+fv.Name(), fv.Type(), st)
+		if len(v.L) == 1 && v.A == nil {
+			st.assume(Not(Eq(v.L[0], IntC(0)))) // a captured variable's cell always exists
+		}
 		fr.freeVars = append(fr.freeVars, v)
 		_ = i
 	}
@@ -676,6 +713,9 @@ func (E *Engine) VerifyFunction(fn *ssa.Function, fc *FuncContract) {
 		st.assume(f)
 	}
 	env := &Env{x: x, st: st, old: st, vars: map[string]Val{}, pkgPath: fnPkgPath(fn), fc: fc}
+	if len(fn.FreeVars) > 0 {
+		env.fr = fr // captured variables are named in closure contracts
+	}
 	for n, v := range fr.params {
 		env.vars[n] = v
 	}
